@@ -359,13 +359,13 @@ func init() {
 		Units: func(tier string) []vh.Unit {
 			var us []vh.Unit
 			if tier == "thorough" {
-				for s := 0; s < 17; s++ {
-					us = append(us, c11StoreUnit(vh.Memory, 6, s, 17))
-					us = append(us, c11StoreUnit(vh.Badger, 5, s, 17))
+				for s := 0; s < 48; s++ {
+					us = append(us, c11StoreUnit(vh.Memory, 7, s, 48))
+					us = append(us, c11StoreUnit(vh.Badger, 6, s, 48))
 				}
-				for s := 0; s < 12; s++ {
-					us = append(us, c11PoolUnit(vh.Memory, 5, s, 12))
-					us = append(us, c11PoolUnit(vh.Badger, 4, s, 12))
+				for s := 0; s < 24; s++ {
+					us = append(us, c11PoolUnit(vh.Memory, 6, s, 24))
+					us = append(us, c11PoolUnit(vh.Badger, 5, s, 24))
 				}
 			} else {
 				for s := 0; s < 9; s++ {
